@@ -517,6 +517,9 @@ class _SeqLen:
         if isinstance(e, ast.Call):
             f = e.func
             if isinstance(f, ast.Attribute) and f.attr in _SPLITS + _PARTITIONS and not any(isinstance(a, ast.Starred) for a in e.args):
+                r_ = f.value
+                if isinstance(r_, ast.Name) and (r_.id in self.fi.module.classes or r_.id in self.fi.module.imports or r_.id in ("cls", "self")):
+                    raise _Opaque("a method named split of a class / module, not str.split")
                 return {self._base(e)}
             d = dotted(f)
             if d in _SAME_LENGTH and len(e.args) == 1 and not isinstance(e.args[0], ast.Starred):
@@ -1048,6 +1051,8 @@ class EscapeAnalysis:
                     pass
                 elif _digits_guard(call):
                     self._discharge(fi, call, "int(): argument is dominated by a digit-set membership test")
+                elif self._digits_guard_observer(call, fi):
+                    self._discharge(fi, call, "int(): the argument is a pure observation of a parameter object (e.g. stream.peek()) made before the function changes that object; at every call site the same observation is dominated by a digit-set membership test with no change of the object in between")
                 elif self._digits_guard_callers(call, fi):
                     self._discharge(fi, call, "int(): the argument is a parameter; at every call site of the function it is dominated by a digit-set membership test")
                 elif _hex_loop_guard(call):
@@ -1074,12 +1079,17 @@ class EscapeAnalysis:
             elif n == "importlib.import_module":
                 add([B + "ImportError", B + "ValueError"], "import_module of a configured dotted path")
             elif n == B + "getattr" and len(call.args) == 2:
-                if _getattr_field_guard(call, fi):
+                if self._getattr_method_table(call, fi):
+                    self._discharge(fi, call, "2-argument getattr(self, TABLE[k]): every value of the class-level table names a method the class defines")
+                elif _getattr_field_guard(call, fi):
                     self._discharge(fi, call, "2-argument getattr: the attribute name is dominated by a membership test in a collection built from the dataclass' own field enumeration")
                 else:
                     add([B + "AttributeError"], "2-argument getattr")
             elif n == B + "next" and len(call.args) == 1:
-                add([B + "StopIteration"], "next() without default")
+                if self._infinite_iterator(call.args[0], fi):
+                    self._discharge(fi, call, "next(): the iterator is only ever bound to itertools.count()/cycle()/repeat(x), which never stop")
+                else:
+                    add([B + "StopIteration"], "next() without default")
             elif n == "jinja2.Environment" :
                 pass
         if attr in ("read_text", "read_bytes"):
@@ -1192,6 +1202,151 @@ class EscapeAnalysis:
                 return False
         return True
 
+    # -- int(P.observe()) with the digit test at the call sites ---------------------------------------
+    def _pure_observers(self, ci) -> set[str]:
+        """Methods of a package class whose body is a single ``return <expression without calls or stores>``."""
+        out = set()
+        for c in self.c.mro(ci):
+            for name, m in c.methods.items():
+                body = [st for st in m.node.body if not (isinstance(st, ast.Expr) and isinstance(st.value, ast.Constant))]
+                if len(body) == 1 and isinstance(body[0], ast.Return) and body[0].value is not None:
+                    if not any(isinstance(x, (ast.Call, ast.NamedExpr, ast.Yield, ast.Await)) for x in ast.walk(body[0].value)):
+                        out.add(name)
+        return out
+
+    def _param_class(self, fi: FunctionInfo, pname: str):
+        a = fi.node.args
+        for p_ in a.posonlyargs + a.args + a.kwonlyargs:
+            if p_.arg == pname and p_.annotation is not None:
+                r = self.g.ann_class(p_.annotation, fi.module)
+                if r:
+                    return r[1]
+        return None
+
+    def _changes_object(self, st, obj: str, observers: set[str]) -> bool:
+        """The CFG statement may change the object bound to ``obj`` (or re-bind the name)."""
+        exprs = [st.test] if isinstance(st, (ast.If, ast.While)) else [st.iter, st.target] if isinstance(st, ast.For) else list(st.items) if isinstance(st, ast.With) else [] if isinstance(st, (ast.Try, ast.FunctionDef, ast.ClassDef)) else [st]
+        for e in exprs:
+            for x in ast.walk(e):
+                if isinstance(x, ast.Name) and x.id == obj and isinstance(x.ctx, (ast.Store, ast.Del)):
+                    return True
+                if isinstance(x, ast.Call):
+                    if isinstance(x.func, ast.Attribute) and isinstance(x.func.value, ast.Name) and x.func.value.id == obj:
+                        if x.func.attr not in observers:
+                            return True
+                        continue
+                    if any(isinstance(a, ast.Name) and a.id == obj for a in list(x.args) + [k.value for k in x.keywords]):
+                        return True
+                if isinstance(x, (ast.Attribute, ast.Subscript)) and isinstance(x.ctx, (ast.Store, ast.Del)):
+                    r = x
+                    while isinstance(r, (ast.Attribute, ast.Subscript)):
+                        r = r.value
+                    if isinstance(r, ast.Name) and r.id == obj:
+                        return True
+        return False
+
+    def _digits_guard_observer(self, call: ast.Call, fi: FunctionInfo) -> bool:
+        if len(call.args) != 1 or call.keywords or fi.is_lambda or fi.cls is not None or fi.parent_func is not None:
+            return False
+        e = call.args[0]
+        if not (isinstance(e, ast.Call) and isinstance(e.func, ast.Attribute) and isinstance(e.func.value, ast.Name) and not e.keywords and all(isinstance(a, ast.Constant) for a in e.args)):
+            return False
+        pname, meth = e.func.value.id, e.func.attr
+        pi = _param_index(fi, pname)
+        ci = self._param_class(fi, pname)
+        if pi is None or ci is None:
+            return False
+        observers = self._pure_observers(ci)
+        if meth not in observers:
+            return False
+        from .flow import get_cfg
+
+        # inside the helper: the observation happens before anything changes the object
+        try:
+            cfg = get_cfg(fi)
+            here = cfg.stmt_of(call)
+        except Exception:
+            return False
+        for nd in cfg.nodes:
+            if isinstance(nd, ast.stmt) and nd is not here and self._changes_object(nd, pname, observers) and here in cfg.reachable_from(nd):
+                return False
+        sites = self.g.callers().get(fi.fq, [])
+        if not sites or self._used_as_value(fi):
+            return False
+        obs_args = [unparse(a) for a in e.args]
+        for caller, c in sites:
+            if caller.is_lambda or any(isinstance(x, ast.Starred) for x in c.args) or any(k.arg is None for k in c.keywords):
+                return False
+            arg = c.args[pi[0]] if 0 <= pi[0] < len(c.args) else None
+            for k in c.keywords:
+                if k.arg == pname:
+                    arg = k.value
+            if not isinstance(arg, ast.Name):
+                return False
+            if not self._observation_digit_tested(caller, c, arg.id, meth, obs_args, observers):
+                return False
+        return True
+
+    def _observation_digit_tested(self, caller: FunctionInfo, c: ast.Call, obj: str, meth: str, obs_args: list[str], observers: set[str]) -> bool:
+        """The call sits in the true branch of ``if <obs> in "<digits>"`` where <obs> is ``obj.meth(args)`` itself or a
+        local whose reaching definition is that observation, and nothing changes ``obj`` between the observation
+        and the call."""
+        from .flow import get_cfg
+
+        try:
+            cfg = get_cfg(caller)
+            C = cfg.stmt_of(c)
+        except Exception:
+            return False
+
+        def is_obs(x: ast.AST) -> bool:
+            return (
+                isinstance(x, ast.Call) and isinstance(x.func, ast.Attribute) and x.func.attr == meth and isinstance(x.func.value, ast.Name)
+                and x.func.value.id == obj and [unparse(a) for a in x.args] == obs_args and not x.keywords
+            )
+
+        for a in ancestors(c):
+            if isinstance(a, (ast.FunctionDef, ast.Lambda)):
+                break
+            if not isinstance(a, ast.If):
+                continue
+            t = a.test
+            if not (isinstance(t, ast.Compare) and len(t.ops) == 1 and isinstance(t.ops[0], ast.In) and isinstance(t.comparators[0], ast.Constant)
+                    and isinstance(t.comparators[0].value, str) and t.comparators[0].value and all(ch in "0123456789" for ch in t.comparators[0].value)):
+                continue
+            n_ = c
+            while parent(n_) is not a:
+                n_ = parent(n_)
+            if n_ not in a.body:
+                continue
+            if is_obs(t.left):
+                starts = [("T", a)]
+            elif isinstance(t.left, ast.Name):
+                v = t.left.id
+                defs = [n for n in caller.local_nodes() if isinstance(n, ast.Assign) and len(n.targets) == 1 and isinstance(n.targets[0], ast.Name) and n.targets[0].id == v]
+                others = [n for n in caller.local_nodes() if isinstance(n, ast.Name) and n.id == v and isinstance(n.ctx, ast.Store) and not any(n is d.targets[0] for d in defs)]
+                if others or not defs:
+                    continue
+                # every definition of v that can reach the test without passing another definition must be the observation
+                reaching = [d for d in defs if cfg.paths_avoiding(d, a, lambda nd: any(nd is o for o in defs))]
+                if not reaching or not all(is_obs(d.value) for d in reaching):
+                    continue
+                starts = reaching
+            else:
+                continue
+            # nothing changes the object on a path from the observation to the call
+            bad = False
+            for nd in cfg.nodes:
+                if isinstance(nd, ast.stmt) and nd is not C and self._changes_object(nd, obj, observers):
+                    for s0 in starts:
+                        if nd in cfg.reachable_from(s0) and C in cfg.reachable_from(nd) and not (isinstance(s0, ast.stmt) and nd is s0):
+                            # ... unless every path from the change to the call passes the observation again
+                            if cfg.paths_avoiding(nd, C, lambda x: any(x is s1 for s1 in starts)):
+                                bad = True
+            if not bad:
+                return True
+        return False
+
     def _used_as_value(self, fi: FunctionInfo) -> bool:
         """The function's name occurs somewhere in the package other than as the callee of a call (or its own def)."""
 
@@ -1213,6 +1368,63 @@ class EscapeAnalysis:
             return refs
 
         return self.c.cache("names-used-as-values", compute).get(fi.name, 0) > 0
+
+    def _infinite_iterator(self, e: ast.expr, fi: FunctionInfo) -> bool:
+        def infinite(v: ast.expr, mod) -> bool:
+            if not isinstance(v, ast.Call):
+                return False
+            full = mod.resolve(dotted(v.func) or "")
+            return full in ("itertools.count", "itertools.cycle") or (full == "itertools.repeat" and len(v.args) == 1 and not v.keywords)
+
+        binds: list[tuple[ast.expr | None, object]] = []
+        if isinstance(e, ast.Name) and not fi.is_lambda:
+            if e.id in fi.params:
+                return False
+            for n in fi.local_nodes():
+                if isinstance(n, ast.Name) and n.id == e.id and isinstance(n.ctx, ast.Store):
+                    p_ = parent(n)
+                    binds.append((p_.value if isinstance(p_, ast.Assign) and len(p_.targets) == 1 and p_.targets[0] is n else None, fi.module))
+        elif isinstance(e, ast.Attribute) and isinstance(e.value, ast.Name) and e.value.id in ("self", "cls") and fi.cls is not None:
+            for m in self.c.modules.values():
+                for n in ast.walk(m.tree):
+                    if isinstance(n, ast.Attribute) and n.attr == e.attr and isinstance(n.ctx, ast.Store):
+                        p_ = parent(n)
+                        binds.append((p_.value if isinstance(p_, ast.Assign) and len(p_.targets) == 1 else None, m))
+            for c in self.c.mro(fi.cls) + self.c.subclasses(fi.cls):
+                for st in c.node.body:
+                    tg = st.targets[0] if isinstance(st, ast.Assign) and len(st.targets) == 1 else (st.target if isinstance(st, ast.AnnAssign) else None)
+                    if isinstance(tg, ast.Name) and tg.id == e.attr:
+                        binds.append((getattr(st, "value", None), c.module))
+        return bool(binds) and all(v is not None and infinite(v, m) for v, m in binds)
+
+    def _getattr_method_table(self, call: ast.Call, fi: FunctionInfo) -> bool:
+        """``getattr(self, self.TABLE[k])`` where TABLE is a dict display in the class body (or a base class) whose
+        values are string constants naming methods that the class (through its MRO) defines."""
+        if fi.cls is None or unparse(call.args[0]) not in ("self", "cls"):
+            return False
+        e = call.args[1]
+        if not (isinstance(e, ast.Subscript) and isinstance(e.value, ast.Attribute) and isinstance(e.value.value, ast.Name) and e.value.value.id in ("self", "cls")):
+            return False
+        for c in self.c.mro(fi.cls):
+            for st in c.node.body:
+                tg = st.targets[0] if isinstance(st, ast.Assign) and len(st.targets) == 1 else (st.target if isinstance(st, ast.AnnAssign) else None)
+                if isinstance(tg, ast.Name) and tg.id == e.value.attr and isinstance(getattr(st, "value", None), ast.Dict):
+                    vals = st.value.values
+                    # the table must not be modified anywhere in the package
+                    for m in self.c.modules.values():
+                        for n in ast.walk(m.tree):
+                            if isinstance(n, ast.Attribute) and n.attr == tg.id:
+                                p_ = parent(n)
+                                if isinstance(p_, ast.Subscript) and isinstance(p_.ctx, (ast.Store, ast.Del)):
+                                    return False
+                                if isinstance(p_, ast.Attribute) and p_.attr in ("update", "pop", "setdefault", "clear", "popitem") and isinstance(parent(p_), ast.Call):
+                                    return False
+                                if isinstance(n.ctx, (ast.Store, ast.Del)):
+                                    return False
+                    return bool(vals) and all(
+                        isinstance(v, ast.Constant) and isinstance(v.value, str) and self.c.lookup_method(fi.cls, v.value) is not None for v in vals
+                    )
+        return False
 
     def _marked_section_guard(self, fi) -> bool:
         """The class whose method calls ``HTMLParser.feed`` overrides ``parse_marked_section`` such that
